@@ -169,8 +169,8 @@ class Exec(ExprMixin, CallMixin):
 
     def maybe_raise(self, cond_ok, exc_cls, lineno=0, msg=None):
         """Python raises exc_cls unless cond_ok. Forks: the exceptional edge is followed like any other."""
-        if self.merge_depth > 0:
-            return
+        if self.merge_depth > 0 or self.spec_depth > 0:
+            return  # contract text is total by convention (guards are the author's responsibility)
         if self.decide(cond_ok):
             return
         raise RaiseSig(VExc(exc_cls, msg))
@@ -422,7 +422,9 @@ class Exec(ExprMixin, CallMixin):
         self._havoc_assigned(st, fr, contract)
         done = z3.Const(fresh_name("done"), ssort)
         rest = z3.Const(fresh_name("rest"), ssort)
-        self.assume(whole == z3.Concat(done, rest))
+        if any(a.arg == "done" for a in inv.args.args):
+            # only invariants that talk about the processed prefix need the decomposition fact
+            self.assume(whole == z3.Concat(done, rest))
         extra = {"done": VList(elem, seq=done), "rest": VList(elem, seq=rest)}
         self._assume_spec(contract, inv, fr, extra)
         if not self.decide(z3.Length(rest) > 0):
